@@ -4,7 +4,7 @@ from mc import core, det
 PROPERTY = 'C14'
 ENGINE = 'E1 bounded-exhaustive enumeration of (key length, message length, declared-length variant) against an independent AES-CBC/PKCS7 computation'
 LEVEL = 'model_checking'
-DIRECTED_ADDITIONS = '600 (5000) encryptions per object with IV variety, 3000 (20000) wrong keys per ciphertext, near wrong keys, lengths around 256 / 4096, keyword calls, pickled / deep-copied objects, constructor domain 0..130'      # members added during the seeded-change campaign (DESIGN 7); counted under their own vacuity counters
+DIRECTED_ADDITIONS = 'three workers forked from a process that has used the cipher, 600 (5000) encryptions per object with IV variety, 3000 (20000) wrong keys per ciphertext, near wrong keys, lengths around 256 / 4096, keyword calls, pickled / deep-copied objects, constructor domain 0..130'      # members added during the seeded-change campaign (DESIGN 7); counted under their own vacuity counters
 
 
 
@@ -46,6 +46,8 @@ def units(tier, seed):
     for kl in (16, 24, 32):
         us.append(('many/%d' % kl, {'kind': 'many', 'kl': kl, 'count': 600 if tier == 'quick' else 5000}))
     us.append(('ctor', {'kind': 'ctor'}))
+    for kl in (16, 24, 32):
+        us.append(('forked/%d' % kl, {'kind': 'forked', 'kl': kl}))
     return us
 
 
@@ -297,8 +299,52 @@ def run_many(r, seed, kl, count):
     r.sample({'key_length': kl, 'encryptions_of_one_message_by_one_object': count, 'wrong_keys_per_ciphertext': nwrong})
 
 
+def run_forked(r, seed, kl):
+    """fresh randomness across forked workers: a process that has used the cipher forks three workers (pre-fork server,
+    multiprocessing's fork start method); their IVs, ciphertexts of one message under one key and generated keys are pairwise distinct"""
+    A = impl()
+    a = A(key_length=kl)
+    g = det.rng(seed, 'c14-forked', kl)
+    key = g.randbytes(kl)
+    m = b'same message'
+    case = {'key_length': kl, 'forked_workers': 3}
+    core.note_case(case)
+    r['evaluations'] += 1
+    r['states'] += 1
+    r['nontrivial'] += 1
+
+    def work(i):
+        b = A(key_length=kl)
+        return [a.Encrypt(key, m), a.Encrypt(key, m), b.Encrypt(key, m)], [a.KeyGen(), b.KeyGen()]
+    det.restore()
+    warm = [a.Encrypt(key, m), a.Encrypt(key, m)]
+    warm_keys = [a.KeyGen()]
+    res = det.forked(3, work)
+    after = [a.Encrypt(key, m)]
+    r['transitions'] += 3 * 5 + 4
+    if any(t != 'ok' for t, _ in res):
+        r.v(PROPERTY, 'AES-CBC', 'raises', 'in-forked-worker', case, 'encryption works in a forked worker', repr([x for t, x in res if t != 'ok'][:1]))
+        return
+    cts = warm + after + [c for _, (cs, _) in res for c in cs]
+    keys = warm_keys + [k for _, (_, ks) in res for k in ks]
+    r.count('forked-worker-ciphertexts-compared', len(cts))
+    if len({c[:16] for c in cts}) != len(cts):
+        r.v(PROPERTY, 'AES-CBC', 'randomness', 'iv-repeats-across-forked-workers', case, 'pairwise distinct IVs',
+            '%d encryptions, %d distinct IVs' % (len(cts), len({c[:16] for c in cts})))
+    if len(set(keys)) != len(keys):
+        r.v(PROPERTY, 'AES-CBC', 'randomness', 'keygen-repeats-across-forked-workers', case, 'pairwise distinct keys', '%d keys, %d distinct' % (len(keys), len(set(keys))))
+    for c in cts:
+        if a.Decrypt(key, c) != m:
+            r.v(PROPERTY, 'AES-CBC', 'roundtrip', 'forked-worker-ciphertext', case, m, 'differs')
+    r.outcome('forked-ok')
+
+
 def run_unit(p, tier, seed):
     r = core.Result()
+    if p['kind'] == 'forked':
+        run_forked(r, seed, p['kl'])
+        det.restore()
+        return r
     if p['kind'] == 'many':
         run_many(r, seed, p['kl'], p['count'])
         det.restore()
@@ -315,7 +361,9 @@ def run_unit(p, tier, seed):
 
 def replay(case, seed):
     r = core.Result()
-    if 'message_length' in case:
+    if 'forked_workers' in case:
+        run_forked(r, seed, case['key_length'])
+    elif 'message_length' in case:
         run_enc(r, seed, case['key_length'], case['key_index'], [case['message_length']])
     elif 'encryption' in case:
         run_many(r, seed, case['key_length'], 5000)
